@@ -4,6 +4,7 @@
 import Plonk.Driver.Prog
 import Plonk.Driver.Kernels
 import Plonk.Driver.Crypto
+import Plonk.Model.Compress
 open Plonk Plonk.Driver
 
 def dumpState (s : PState) : String :=
@@ -30,6 +31,12 @@ def answer (line : String) : String :=
       if sa.bad.isSome || sb.bad.isSome then "bad-op"
       else summary sa ++ " " ++ Composer.proveOutcome sa.c sb.c
     | _ => "bad-request"
+  | "cmpsnap" :: rest =>
+    let s := runProg (String.intercalate " " rest)
+    if s.bad.isSome then "bad-op" else summary { s with c := decompressCompress s.c, regs := #[], rets := #[] }
+  | ["maxcons", d] => match d.toNat? with
+    | some d => toString (maxConstraints d)
+    | none => "bad-request"
   | "shape" :: rest => summary (runProg (String.intercalate " " rest))
   | "dump" :: rest => dumpState (runProg (String.intercalate " " rest))
   | toks =>
